@@ -316,7 +316,7 @@ export_node (struct yaep_tree_node *n)
 	kids = (int *) malloc (sizeof (int) * (k + 1));
 	for (i = 0; i < k; i++) kids[i] = export_node (n->val.anode.children[i]);
 	my = next_id++;
-	printf ("%snode %d anode %s %d", prefix, my, n->val.anode.name, n->val.anode.cost);
+	printf ("%snode %d anode %s %d", prefix, my, n->val.anode.name[0] ? n->val.anode.name : "@empty", n->val.anode.cost);
 	for (i = 0; i < k; i++) printf (" %d", kids[i]);
 	printf ("\n");
 	free (kids);
@@ -477,7 +477,7 @@ run_case (int case_timeout)
 	  struct grule *r = &g->rules[g->nrule++]; char *a; int k, i;
 	  r->lhs = xstrdup (strtok_r (NULL, " \n", &save));
 	  a = strtok_r (NULL, " \n", &save);
-	  r->anode = strcmp (a, "-") ? xstrdup (a) : NULL;
+	  r->anode = strcmp (a, "-") ? xstrdup (strcmp (a, "@empty") ? a : "") : NULL;	/* "@empty" = the empty string */
 	  r->cost = atoi (strtok_r (NULL, " \n", &save));
 	  k = atoi (strtok_r (NULL, " \n", &save));
 	  if (k > MAXRHS) k = MAXRHS;
